@@ -45,6 +45,11 @@ CHECKS = {
    technique="TLA+ model of goroutines at hook granularity (Concurrent.tla) model-checked over all interleavings; its work assignments run free in a -race build; hook traces with goroutine ids validated by TLC (PoolsTrace)",
    text="Concurrent.tla splits every public call at the sync.Once guard and the buffer pool (the verif hook points); TLC checks NoBufferSharedByTwoProcesses, NothingHeldOutsideCalls, ResultsAreSequential and OnceRunsOnce over all interleavings of 2 goroutines x programs of <= 2 calls (2.4M + 7.8M states). Every initial state (4800 work assignments: own objects / one shared checked object) is executed for several rounds in a race-instrumented build with GOMAXPROCS 2/4/16: no race report, results equal to sequential references, held results intact; sampled runs record hook events with goroutine ids and TLC validates them against PoolsTrace (a buffer is never handed to two goroutines, results never alias pooled memory).",
    note="The race detector judges only the schedules that ran (free-running; gates are not imposed). Catalogue of three contents. Go race detector and sync.Pool are trusted."),
+ "C09": dict(
+   category="model_checking", design_ref="DESIGN.md §3 C09",
+   technique="TLA+ model with explicit map-iteration nondeterminism (Determinism.tla): TLC shows confluence under sorted iteration and its failure under map iteration, and lists every (root, type set, registration order); all of them observed on the real code by repetition, fresh processes and all orders",
+   text="Determinism.tla makes every range-over-map an explicit choice; with Iteration=\"sorted\" TLC proves Confluent over all roots x <=3 of 6 types x all registration orders (942 states), with \"map\" it produces the counterexample (negative control) and marks the order-sensitive configurations. Each configuration and ~600-4000 texts for the enum, regex, JSON-document, guessing and schema entry points are observed R times in-process and in P worker processes; error (code, message, index, line, column, offending type), Len, AST, example, used types, OpenAPI, enum values, lexeme streams are compared byte-for-byte across repetitions, processes and registration orders.",
+   note="Map orders and heap addresses cannot be enumerated: a 2-way order dependence survives R repetitions with probability 2^(1-R) (R >= 40 per process on sensitive configurations). Type catalogue of six types."),
 }
 
 REASON_PENDING = "check not built yet in this round (design in DESIGN.md §3); no claim is made"
